@@ -14,9 +14,7 @@ PROP = "C09"
 LEAN_TARGETS = ["Eliot.Properties.C09"]
 AUDIT = "Eliot/Audit/C09.lean"
 THEOREMS = [
-    "PM.Tree.step", "PM.Tree.stepC",
-]
-_TODO = [
+    "PM.Tree.step", "PM.Tree.stepC", "PM.Task.add_step", "PM.Parser.add_step",
     "PM.C09.feed_ok", "PM.C09.subset_no_error", "PM.C09.parse_perm_invariant",
     "PM.C09.complete_iff_all_arrived", "PM.C09.never_early", "PM.C09.yield_exactly_once",
     "PM.C09.reconstruct",
